@@ -59,7 +59,7 @@ Lemma run_written k : forall ops p, p_tee p = false -> p_wroteHeader p = true ->
   p_bytes p' = wsum (p_bytes p) (accepted_list k ops) /\ accepted_calls calls = accepted_list k ops.
 Proof.
   induction ops as [|x t IH]; intros p T W; cbn [run].
-  - repeat split; reflexivity.
+  - cbn. repeat split; auto.
   - pose proof (step_ok k p x T) as F. destruct (step k p x) as [p1 c1]. cbn [fst snd] in F.
     destruct F as [F1 F2 F3 F4 _]. destruct (F4 W) as [W1 [C1 H1]].
     specialize (IH p1 F1 W1). destruct (run k p1 t) as [p2 c2].
@@ -94,10 +94,10 @@ Proof.
       destruct R as [T2 [_ [C2 [H2 [B2 A2]]]]]. destruct (Hb p2 c2 B2 A2) as [Hb1 Hb2].
       repeat split; auto; [congruence|]. rewrite first_header_hd, header_calls_app, H1. reflexivity. }
     destruct x as [c|len o|len o|].
-    + destruct F5 as [W1 [C1 H1]]. cbn [spec_status]. exact (Hw c W1 C1 H1).
-    + cbn [body_write] in F5. destruct F5 as [W1 [C1 H1]]. cbn [spec_status body_write]. exact (Hw 200 W1 C1 H1).
+    + destruct F5 as [W1 [C1 H1]]. cbn [spec_status]. pose proof (Hw c W1 C1 H1) as Q; destruct (run k p1 t) as [p2 c2]; exact Q.
+    + cbn [body_write] in F5. destruct F5 as [W1 [C1 H1]]. cbn [spec_status body_write]. pose proof (Hw 200 W1 C1 H1) as Q; destruct (run k p1 t) as [p2 c2]; exact Q.
     + cbn [spec_status]. destruct (body_write k (OReadFrom len o)) eqn:EB.
-      * destruct F5 as [W1 [C1 H1]]. exact (Hw 200 W1 C1 H1).
+      * destruct F5 as [W1 [C1 H1]]. pose proof (Hw 200 W1 C1 H1) as Q; destruct (run k p1 t) as [p2 c2]; exact Q.
       * destruct F5 as [W1 [C1 H1]]. assert (C1' : p_code p1 = 0) by congruence.
         specialize (IH p1 F1 W1 C1'). destruct (run k p1 t) as [p2 c2].
         destruct IH as [T2 [C2 [H2 [B2 A2]]]]. destruct (Hb p2 c2 B2 A2) as [Hb1 Hb2].
@@ -128,7 +128,6 @@ Proof.
   destruct (body_write k x) eqn:E; cbn [app fold_right].
   - rewrite IH. reflexivity.
   - rewrite IH. destruct x as [c|len o|len o|]; cbn [body_write accepted] in *; try discriminate; try lia.
-    rewrite E. lia.
 Qed.
 
 Lemma accepted_list_nonneg k ops : Forall op_ok ops -> Forall (fun n => 0 <= n) (accepted_list k ops).
@@ -136,7 +135,6 @@ Proof.
   unfold accepted_list. induction 1 as [|x t Hx Ht IH]; cbn [flat_map]; [constructor|].
   destruct (body_write k x) eqn:E; cbn [app]; [|exact IH]. constructor; [|exact IH].
   destruct x as [c|len o|len o|]; cbn [accepted op_ok body_write] in *; try discriminate; try lia.
-  rewrite E. lia.
 Qed.
 
 Lemma accepted_calls_total calls : fold_right Z.add 0 (accepted_calls calls) = total_accepted calls.
@@ -198,10 +196,6 @@ Lemma note_flush_commits_header_unrecorded :
   status = 500 /\ sent_status calls = 200.
 Proof. vm_compute. auto. Qed.
 
-Definition no_flush_before_header (k : kind) (ops : list op) : Prop :=
-  k = KBasic \/ forall pre post, ops = pre ++ OFlush :: post ->
-    existsb (fun x => match x with OWriteHeader _ => true | _ => body_write k x end) pre = true.
-
 (* ---- noted: with a tee (not reachable through the property's calls) fancyWriter.ReadFrom counts twice ---- *)
 Lemma note_tee_readfrom_double_count :
   let p := {| p_wroteHeader := false; p_code := 0; p_bytes := 0; p_tee := true |} in
@@ -209,3 +203,375 @@ Lemma note_tee_readfrom_double_count :
 Proof. vm_compute. reflexivity. Qed.
 
 End Proxy.
+
+(* ================================================================== *)
+(* Part 2: request isolation                                           *)
+(* ================================================================== *)
+Section Heap.
+Open Scope nat_scope.
+
+(* ---- lists ---- *)
+Lemma nth_upd_same {A} (l : list A) i x d : i < length l -> nth i (upd l i x) d = x.
+Proof. revert i; induction l as [|h t IH]; intros [|i] H; cbn in *; try lia; auto. apply IH. lia. Qed.
+
+Lemma nth_upd_other {A} (l : list A) i j x d : i <> j -> nth j (upd l i x) d = nth j l d.
+Proof. revert i j; induction l as [|h t IH]; intros [|i] [|j] H; cbn; try congruence; auto. Qed.
+
+Lemma nth_error_upd_same {A} (l : list A) i x : i < length l -> nth_error (upd l i x) i = Some x.
+Proof. revert i; induction l as [|h t IH]; intros [|i] H; cbn in *; try lia; auto. apply IH. lia. Qed.
+
+Lemma nth_error_upd_other {A} (l : list A) i j x : i <> j -> nth_error (upd l i x) j = nth_error l j.
+Proof. revert i j; induction l as [|h t IH]; intros [|i] [|j] H; cbn; try congruence; auto. Qed.
+
+Lemma array_app_old h x a : a < length h -> array (h ++ [x]) a = array h a.
+Proof. intros H. unfold array. apply app_nth1. exact H. Qed.
+
+Lemma array_app_new h x : array (h ++ [x]) (length h) = x.
+Proof. unfold array. rewrite app_nth2 by lia. rewrite Nat.sub_diag. reflexivity. Qed.
+
+Lemma write_at_length l i bs : i + length bs <= length l -> length (write_at l i bs) = length l.
+Proof.
+  intros H. unfold write_at. rewrite !app_length, firstn_length, skipn_length. lia.
+Qed.
+
+Lemma view_write l o n bs : o + n + length bs <= length l ->
+  firstn (n + length bs) (skipn o (write_at l (o + n) bs)) = firstn n (skipn o l) ++ bs.
+Proof.
+  intros H. unfold write_at.
+  rewrite skipn_app. rewrite firstn_length. replace (o - Nat.min (o + n) (length l)) with 0 by lia.
+  cbn [skipn]. rewrite skipn_firstn_comm. replace (o + n - o) with n by lia.
+  rewrite app_assoc. rewrite firstn_app.
+  assert (L : length (firstn n (skipn o l) ++ bs) = n + length bs).
+  { rewrite app_length, firstn_length, skipn_length. lia. }
+  rewrite L, Nat.sub_diag. cbn [firstn]. rewrite app_nil_r.
+  rewrite firstn_all2 by lia. reflexivity.
+Qed.
+
+(* ---- append / make ---- *)
+Record append_facts (h : heap) (s : slice) (bs : list N) (h' : heap) (s' : slice) (a : nat) : Prop := {
+  af_view : view h' s' = view h s ++ bs;
+  af_wf : wf h' s';
+  af_len : length h <= length h';
+  af_arr : a = arr s';
+  af_where : a = arr s \/ (a = length h /\ length h' = S (length h));
+  af_same_len : a = arr s -> length h' = length h;
+  af_frame : forall b, b < length h -> b <> a -> array h' b = array h b
+}.
+
+Lemma append_ok grow h s bs : wf h s ->
+  let '(h', s', a) := append grow h s bs in append_facts h s bs h' s' a.
+Proof.
+  intros [W1 [W2 W3]]. unfold append.
+  destruct (Nat.leb_spec (len s + length bs) (cap s)) as [L|L].
+  - (* in place *)
+    assert (LW : length (write_at (array h (arr s)) (off s + len s) bs) = length (array h (arr s)))
+      by (apply write_at_length; lia).
+    constructor; cbn [arr off len cap].
+    + unfold view; cbn [arr off len cap]. unfold array at 1. rewrite nth_upd_same by exact W1.
+      apply view_write. lia.
+    + unfold wf; cbn [arr off len cap]. rewrite upd_length. split; [exact W1|]. split; [|lia].
+      unfold array. rewrite nth_upd_same by exact W1. fold (array h (arr s)). rewrite LW. exact W2.
+    + rewrite upd_length. lia.
+    + reflexivity.
+    + left. reflexivity.
+    + intros _. apply upd_length.
+    + intros b Hb Hne. unfold array. apply nth_upd_other. congruence.
+  - (* fresh array *)
+    set (nc := Nat.max (grow (cap s) (len s + length bs)) (len s + length bs)).
+    assert (LV : length (view h s) = len s).
+    { unfold view. rewrite firstn_length, skipn_length. lia. }
+    constructor; cbn [arr off len cap].
+    + unfold view at 1; cbn [arr off len cap]. rewrite array_app_new. cbn [skipn].
+      rewrite app_assoc. rewrite firstn_app.
+      assert (L2 : length (view h s ++ bs) = len s + length bs) by (rewrite app_length; lia).
+      rewrite L2, Nat.sub_diag. cbn [firstn]. rewrite app_nil_r. rewrite firstn_all2 by lia. reflexivity.
+    + unfold wf; cbn [arr off len cap]. rewrite app_length; cbn [length]. split; [lia|]. split; [|lia].
+      rewrite array_app_new. rewrite !app_length, repeat_length. lia.
+    + rewrite app_length. lia.
+    + reflexivity.
+    + right. split; [reflexivity|]. rewrite app_length; cbn [length]. lia.
+    + intros E. lia.
+    + intros b Hb Hne. apply array_app_old. exact Hb.
+Qed.
+
+Lemma make_ok h c :
+  let '(h', s') := make h c in
+  h' = h ++ [repeat 0%N c] /\ wf h' s' /\ view h' s' = [] /\ arr s' = length h /\ len s' = 0 /\ cap s' = c.
+Proof.
+  unfold make. repeat split; cbn [arr off len cap]; auto.
+  - rewrite app_length; cbn [length]. lia.
+  - rewrite array_app_new, repeat_length. lia.
+  - lia.
+Qed.
+
+(* what one step of a request does to the heap, abstractly *)
+Record step_facts_h (h : heap) (own : option nat) (h' : heap) (s' : slice) (ws : list nat) (v : list N) : Prop := {
+  hf_view : view h' s' = v;
+  hf_wf : wf h' s';
+  hf_len : length h <= length h';
+  hf_in : In (arr s') ws;
+  hf_ws : forall a, In a ws -> a < length h' /\ (Some a = own \/ length h <= a);
+  hf_frame : forall b, b < length h -> ~ In b ws -> array h' b = array h b
+}.
+
+Definition base_ok (h0 : heap) (base : option slice) : Prop :=
+  match base with Some b => wf h0 b /\ 1 <= len b | None => True end.
+
+Lemma view_frame h h' s : arr s < length h -> array h' (arr s) = array h (arr s) -> view h' s = view h s.
+Proof. intros _ E. unfold view. rewrite E. reflexivity. Qed.
+
+Lemma logger_with_ok grow h bytes base :
+  bytes = match base with Some b => view h b | None => begin_marker end ->
+  let '(h', s', ws) := logger_with grow h base in step_facts_h h None h' s' ws bytes.
+Proof.
+  intros Eb. unfold logger_with.
+  pose proof (make_ok h 500) as M. destruct (make h 500) as [h1 s1]. destruct M as [Eh1 [Wf1 [V1 [A1 [L1 C1]]]]].
+  rewrite <- Eb.
+  pose proof (append_ok grow h1 s1 bytes Wf1) as AP. destruct (append grow h1 s1 bytes) as [[h2 s2] a].
+  destruct AP as [Av Aw Al Aa Awh Asl Afr].
+  assert (Lh1 : length h1 = S (length h)) by (subst h1; rewrite app_length; cbn; lia).
+  constructor.
+  - rewrite Av, V1. reflexivity.
+  - exact Aw.
+  - lia.
+  - rewrite <- Aa. right. left. reflexivity.
+  - intros x [E|[E|[]]]; subst x.
+    + split; [lia|right; lia].
+    + destruct Awh as [E|[E E2]].
+      * rewrite E, A1. split; [rewrite (Asl E); lia|right; lia].
+      * split; [lia|right; lia].
+  - intros b Hb Hn. assert (b <> length h) by (intros E; apply Hn; left; auto).
+    assert (b <> a) by (intros E; apply Hn; right; left; auto).
+    rewrite Afr by lia. subst h1. apply array_app_old. exact Hb.
+Qed.
+
+Lemma update_context_ok grow h s chunk : wf h s -> 1 <= len s ->
+  let '(h', s', ws) := update_context grow h s chunk in
+  step_facts_h h (Some (arr s)) h' s' ws (view h s ++ chunk).
+Proof.
+  intros W L. pose proof W as [W1 [W2 W3]]. unfold update_context.
+  assert (Ec : (cap s =? 0) = false) by (apply Nat.eqb_neq; lia). rewrite Ec.
+  assert (El : (len s =? 0) = false) by (apply Nat.eqb_neq; lia). rewrite El.
+  pose proof (append_ok grow h s chunk W) as AP. destruct (append grow h s chunk) as [[h2 s2] a].
+  destruct AP as [Av Aw Al Aa Awh Asl Afr]. cbn [app].
+  constructor; auto.
+  - rewrite <- Aa. left. reflexivity.
+  - intros x [E|[]]. subst x. destruct Awh as [E|[E E2]].
+    + split; [rewrite (Asl E), E; exact W1|left; congruence].
+    + split; [lia|right; lia].
+  - intros b Hb Hn. apply Afr; [exact Hb|]. intros E. apply Hn. left. auto.
+Qed.
+
+Lemma base_bytes_frame h0 base h : base_ok h0 base ->
+  (forall b, b < length h0 -> array h b = array h0 b) ->
+  base_bytes h0 base = match base with Some b => view h b | None => begin_marker end.
+Proof.
+  intros Hb Ho. unfold base_bytes. destruct base as [b|]; [|reflexivity].
+  destruct Hb as [[W1 _] _]. symmetry. apply view_frame; [exact W1|]. apply Ho. exact W1.
+Qed.
+
+Lemma base_bytes_nonempty h0 base : base_ok h0 base -> 1 <= length (base_bytes h0 base).
+Proof.
+  intros Hb. unfold base_bytes. destruct base as [b|]; [|cbn; lia].
+  destruct Hb as [[W1 [W2 W3]] L]. unfold view. rewrite firstn_length, skipn_length. lia.
+Qed.
+
+(* ---- the invariant ---- *)
+Section Inv.
+  Variables (grow : nat -> nat -> nat) (h0 : heap) (base : option slice) (work : list (list (list N))).
+  Hypothesis Hbase : base_ok h0 base.
+  Let bb := base_bytes h0 base.
+
+  Record req_ok (s : state) (i : nat) (r : request) : Prop := {
+    ro_work : rq_done r ++ rq_todo r = nth i work [];
+    ro_logger : match rq_logger r with
+                | None => rq_done r = []
+                | Some l => wf (st_heap s) l /\ length h0 <= arr l /\
+                            view (st_heap s) l = bb ++ concat (rq_done r) /\ In (i, arr l) (st_log s)
+                end
+  }.
+
+  Record inv (s : state) : Prop := {
+    i_len : length h0 <= length (st_heap s);
+    i_old : forall b, b < length h0 -> array (st_heap s) b = array h0 b;
+    i_reqs : forall i r, nth_error (st_reqs s) i = Some r -> req_ok s i r;
+    i_log : forall j a, In (j, a) (st_log s) -> length h0 <= a < length (st_heap s);
+    i_own : forall i r l, nth_error (st_reqs s) i = Some r -> rq_logger r = Some l ->
+                          forall j, In (j, arr l) (st_log s) -> j = i;
+    i_disj : forall a i j, In (i, a) (st_log s) -> In (j, a) (st_log s) -> i = j
+  }.
+
+  Lemma bb_nonempty : 1 <= length bb.
+  Proof. apply base_bytes_nonempty. exact Hbase. Qed.
+
+  Lemma inv_init : inv (init_state h0 work).
+  Proof.
+    constructor; cbn [init_state st_heap st_reqs st_log]; try (intros; contradiction); auto.
+    intros i r H. rewrite nth_error_map in H. destruct (nth_error work i) as [c|] eqn:E; [|discriminate].
+    cbn in H. inversion H; subst. constructor; cbn [new_request rq_done rq_todo rq_logger]; auto.
+    cbn [app]. symmetry. apply nth_error_nth. exact E.
+  Qed.
+
+  Lemma in_map_pair (i : nat) (ws : list nat) (j a : nat) : In (j, a) (map (fun x => (i, x)) ws) <-> j = i /\ In a ws.
+  Proof.
+    rewrite in_map_iff. split.
+    - intros [x [E H]]. inversion E; subst. auto.
+    - intros [-> H]. exists a. auto.
+  Qed.
+
+  (* a step of request i that satisfies step_facts_h preserves the invariant *)
+  Lemma inv_step_generic s i r h' l' ws done' todo' :
+    inv s -> nth_error (st_reqs s) i = Some r ->
+    step_facts_h (st_heap s) (match rq_logger r with Some l => Some (arr l) | None => None end) h' l' ws (bb ++ concat done') ->
+    done' ++ todo' = nth i work [] ->
+    inv {| st_heap := h';
+           st_reqs := upd (st_reqs s) i {| rq_logger := Some l'; rq_todo := todo'; rq_done := done' |};
+           st_log := map (fun a => (i, a)) ws ++ st_log s |}.
+  Proof.
+    intros I Hr [Fv Fw Fl Fin Fws Ffr] Hwork.
+    destruct I as [Il Io Ir Ilog Iown Idisj].
+    assert (Hi : i < length (st_reqs s)) by (apply nth_error_Some; congruence).
+    (* entries of ws against the old log: only i's own *)
+    assert (Hws_old : forall a j, In a ws -> In (j, a) (st_log s) -> j = i).
+    { intros a j Ha Hj. destruct (Fws a Ha) as [_ [E|E]].
+      - destruct (rq_logger r) as [l|] eqn:El; [|discriminate]. inversion E; subst a.
+        exact (Iown i r l Hr El j Hj).
+      - specialize (Ilog j a Hj). lia. }
+    (* other requests' arrays are not in ws *)
+    assert (Hother : forall m rm lm, m <> i -> nth_error (st_reqs s) m = Some rm -> rq_logger rm = Some lm -> ~ In (arr lm) ws).
+    { intros m rm lm Hm Hrm Hlm Hin. destruct (Ir m rm Hrm) as [_ Rl]. rewrite Hlm in Rl.
+      destruct Rl as [_ [_ [_ Rin]]]. apply Hm. exact (Hws_old _ _ Hin Rin). }
+    constructor; cbn [st_heap st_reqs st_log].
+    - lia.
+    - intros b Hb. rewrite Ffr; [apply Io; exact Hb|lia|].
+      intros Hin. destruct (Fws b Hin) as [_ [E|E]]; [|lia].
+      destruct (rq_logger r) as [l|] eqn:El; [|discriminate]. inversion E; subst b.
+      destruct (Ir i r Hr) as [_ Rl]. rewrite El in Rl. lia.
+    - intros m rm Hm. destruct (Nat.eq_dec m i) as [->|Hne].
+      + rewrite nth_error_upd_same in Hm by exact Hi. inversion Hm; subst rm.
+        constructor; cbn [rq_done rq_todo rq_logger st_heap st_log]; [exact Hwork|].
+        split; [exact Fw|]. split; [|split; [exact Fv|]].
+        * destruct (Fws _ Fin) as [_ [E|E]]; [|lia].
+          destruct (rq_logger r) as [l|] eqn:El; [|discriminate]. inversion E as [E'].
+          destruct (Ir i r Hr) as [_ Rl]. rewrite El in Rl. rewrite E'. tauto.
+        * apply in_or_app. left. apply in_map_pair. auto.
+      + rewrite nth_error_upd_other in Hm by congruence.
+        destruct (Ir m rm Hm) as [Rw Rl]. constructor; [exact Rw|].
+        destruct (rq_logger rm) as [lm|] eqn:Elm; [|exact Rl]. cbn [st_heap st_log].
+        destruct Rl as [Rwf [Rge [Rv Rin]]].
+        assert (Hn : ~ In (arr lm) ws) by (apply (Hother m rm lm Hne Hm Elm)).
+        destruct Rwf as [Q1 [Q2 Q3]].
+        assert (EA : array h' (arr lm) = array (st_heap s) (arr lm)) by (apply Ffr; assumption).
+        split; [|split; [exact Rge|split]].
+        * unfold wf. rewrite EA. split; [lia|]. split; assumption.
+        * rewrite (view_frame (st_heap s) h' lm Q1 EA). exact Rv.
+        * apply in_or_app. right. exact Rin.
+    - intros j a Hin. apply in_app_or in Hin as [Hin|Hin].
+      + apply in_map_pair in Hin as [-> Ha]. destruct (Fws a Ha) as [Hlt [E|E]]; [|lia].
+        destruct (rq_logger r) as [l|] eqn:El; [|discriminate]. inversion E; subst a.
+        destruct (Ir i r Hr) as [_ Rl]. rewrite El in Rl. lia.
+      + specialize (Ilog j a Hin). lia.
+    - intros m rm lm Hm Hlm j Hin. destruct (Nat.eq_dec m i) as [->|Hne].
+      + rewrite nth_error_upd_same in Hm by exact Hi. inversion Hm; subst rm. cbn [rq_logger] in Hlm.
+        inversion Hlm; subst lm. apply in_app_or in Hin as [Hin|Hin].
+        * apply in_map_pair in Hin. tauto.
+        * exact (Hws_old _ _ Fin Hin).
+      + rewrite nth_error_upd_other in Hm by congruence.
+        apply in_app_or in Hin as [Hin|Hin].
+        * apply in_map_pair in Hin as [-> Ha]. exfalso. exact (Hother m rm lm Hne Hm Hlm Ha).
+        * exact (Iown m rm lm Hm Hlm j Hin).
+    - intros a x y Hx Hy. apply in_app_or in Hx as [Hx|Hx]; apply in_app_or in Hy as [Hy|Hy].
+      + apply in_map_pair in Hx. apply in_map_pair in Hy. destruct Hx, Hy. congruence.
+      + apply in_map_pair in Hx as [-> Ha]. symmetry. exact (Hws_old _ _ Ha Hy).
+      + apply in_map_pair in Hy as [-> Ha]. exact (Hws_old _ _ Ha Hx).
+      + exact (Idisj a x y Hx Hy).
+  Qed.
+
+  Lemma inv_step s i : inv s -> inv (req_step true grow base s i).
+  Proof.
+    intros I. unfold req_step. destruct (nth_error (st_reqs s) i) as [r|] eqn:Hr; [|exact I].
+    pose proof (i_reqs s I i r Hr) as [Rw Rl].
+    destruct (rq_logger r) as [l|] eqn:El.
+    - destruct (rq_todo r) as [|c rest] eqn:Et; [exact I|].
+      destruct Rl as [Rwf [Rge [Rv Rin]]].
+      assert (L1 : 1 <= len l).
+      { assert (length (view (st_heap s) l) <= len l) by (unfold view; rewrite firstn_length; lia).
+        rewrite Rv, app_length in H. pose proof bb_nonempty. lia. }
+      pose proof (update_context_ok grow (st_heap s) l c Rwf L1) as U.
+      destruct (update_context grow (st_heap s) l c) as [[h1 l1] ws].
+      apply (inv_step_generic s i r h1 l1 ws (rq_done r ++ [c]) rest I Hr).
+      + rewrite El. rewrite concat_app. cbn [concat]. rewrite app_nil_r, app_assoc, <- Rv. exact U.
+      + rewrite <- app_assoc. cbn [app]. exact Rw.
+    - assert (Hb : bb = match base with Some b => view (st_heap s) b | None => begin_marker end).
+      { apply base_bytes_frame; [exact Hbase|exact (i_old s I)]. }
+      pose proof (logger_with_ok grow (st_heap s) bb base Hb) as U.
+      destruct (logger_with grow (st_heap s) base) as [[h1 l1] ws].
+      apply (inv_step_generic s i r h1 l1 ws (rq_done r) (rq_todo r) I Hr).
+      + rewrite El, Rl. cbn [concat]. rewrite app_nil_r. exact U.
+      + exact Rw.
+  Qed.
+
+  Lemma inv_run sched : forall s, inv s -> inv (run_sched true grow base s sched).
+  Proof.
+    unfold run_sched. induction sched as [|i t IH]; intros s I; cbn [fold_left]; [exact I|].
+    apply IH. apply inv_step. exact I.
+  Qed.
+End Inv.
+
+(* for all growth policies, initial heaps, base loggers, sets of requests with any handler chains
+   (= chunk lists) and all interleavings of the requests' steps *)
+Lemma request_isolation grow h0 base work sched : base_ok h0 base ->
+  let s := run_sched true grow base (init_state h0 work) sched in
+  (forall i r, nth_error (st_reqs s) i = Some r ->
+     rq_done r ++ rq_todo r = nth i work [] /\
+     match rq_logger r with
+     | Some l => view (st_heap s) l = base_bytes h0 base ++ concat (rq_done r)
+     | None => rq_done r = []
+     end) /\
+  (forall a i j, In (i, a) (st_log s) -> In (j, a) (st_log s) -> i = j) /\
+  (forall i a, In (i, a) (st_log s) -> length h0 <= a).
+Proof.
+  intros Hb s. pose proof (inv_run grow h0 base work Hb sched _ (inv_init h0 base work)) as I. fold s in I.
+  split; [|split].
+  - intros i r Hr. destruct (i_reqs _ _ _ s I i r Hr) as [Rw Rl]. split; [exact Rw|].
+    destruct (rq_logger r); [tauto|exact Rl].
+  - exact (i_disj _ _ _ s I).
+  - intros i a H. apply (i_log _ _ _ s I) in H. lia.
+Qed.
+
+(* a request whose handlers have all run carries exactly base ++ its own fields *)
+Lemma request_isolation_complete grow h0 base work sched i chunks : base_ok h0 base ->
+  nth_error work i = Some chunks ->
+  let s := run_sched true grow base (init_state h0 work) sched in
+  (exists r, nth_error (st_reqs s) i = Some r /\ rq_logger r <> None /\ rq_todo r = []) ->
+  request_context s i = Some (base_bytes h0 base ++ concat chunks).
+Proof.
+  intros Hb Hw s [r [Hr [Hl Ht]]]. destruct (request_isolation grow h0 base work sched Hb) as [R _].
+  fold s in R. destruct (R i r Hr) as [Rw Rv]. unfold request_context. rewrite Hr.
+  destruct (rq_logger r) as [l|]; [|congruence]. rewrite Rv. rewrite Ht, app_nil_r in Rw.
+  rewrite Rw. rewrite (nth_error_nth _ _ _ Hw). reflexivity.
+Qed.
+
+(* nothing that existed before the requests ran is modified: the base logger's bytes, and every other
+   pre-existing array including the spare capacity behind the base logger's context *)
+Lemma base_unchanged grow h0 base work sched : base_ok h0 base ->
+  let s := run_sched true grow base (init_state h0 work) sched in
+  (forall b, b < length h0 -> array (st_heap s) b = array h0 b) /\
+  (forall bs, base = Some bs -> view (st_heap s) bs = view h0 bs).
+Proof.
+  intros Hb s. pose proof (inv_run grow h0 base work Hb sched _ (inv_init h0 base work)) as I. fold s in I.
+  split; [exact (i_old _ _ _ s I)|].
+  intros bs E. subst base. destruct Hb as [[W1 _] _]. apply view_frame; [exact W1|]. apply (i_old _ _ _ s I). exact W1.
+Qed.
+
+(* why the copy matters: if NewHandler handed out the base logger's header itself, two requests
+   would append into the same spare capacity - the first request's event shows the second's bytes *)
+Definition demo_h0 : heap := [[123; 34; 98; 34; 58; 49] ++ repeat 0 20]%N.
+Definition demo_base : slice := {| arr := 0; off := 0; len := 6; cap := 26 |}.
+Lemma without_copy_requests_interfere :
+  let s := run_sched false (fun c n => 2 * c) (Some demo_base) (init_state demo_h0 [[[44; 65; 65]%N]; [[44; 66; 66]%N]]) [0; 1; 0; 1] in
+  request_context s 0 = Some [123; 34; 98; 34; 58; 49; 44; 66; 66]%N /\
+  request_context s 1 = Some [123; 34; 98; 34; 58; 49; 44; 66; 66]%N.
+Proof. vm_compute. auto. Qed.
+
+End Heap.
